@@ -206,7 +206,10 @@ func genCase(t *rapid.T) Case {
 		if rapid.Bool().Draw(t, "x_num") {
 			nb := rapid.IntRange(1, 20).Draw(t, "numlen")
 			mag := rapid.SliceOfN(rapid.Byte(), nb, nb).Draw(t, "nummag")
-			s.Exts = append(s.Exts, gen.CRLNumberExt(mag))
+			num := gen.CRLNumberExt(mag)
+			// an implemented extension may be marked critical; that alone is no reason to reject
+			num.Critical = rapid.IntRange(0, 3).Draw(t, "numcrit") == 0
+			s.Exts = append(s.Exts, num)
 		}
 		if rapid.Bool().Draw(t, "x_aki") {
 			kid := rapid.SliceOfN(rapid.Byte(), 1, 32).Draw(t, "kid")
@@ -301,6 +304,12 @@ func genCase(t *rapid.T) Case {
 			}
 		case "critical-unknown":
 			s.Version, s.HasExts = 1, true
+			if rapid.Bool().Draw(t, "neg_after_critical_handled") {
+				// the unimplemented critical extension comes after an implemented one that is also marked critical
+				num := gen.CRLNumberExt([]byte{5})
+				num.Critical = true
+				s.Exts = []gen.Ext{num}
+			}
 			s.Exts = append(s.Exts, gen.UnknownExt(4, true))
 		case "delta":
 			s.Version, s.HasExts = 1, true
@@ -491,9 +500,9 @@ func runCase(c Case, x *ev.Ctx) error {
 }
 
 var spec = ev.Spec[Case]{
-	ID:  "C06",
-	Gen: genCase,
-	Run: runCase,
+	ID:   "C06",
+	Gen:  genCase,
+	Run:  runCase,
 	Rule: "rapid draws a CRLSpec (v1/v2, 10 supported signature algorithms, 0..1500 entries with 1..20-byte serials, UTCTime/GeneralizedTime dates, entry extensions, optional nextUpdate / crlExtensions, issuer padding that aims an element boundary at offsets 4090..4102 mod 4096); it is encoded by the harness's own DER writer, checked against encoding/asn1 (soundness guard) and read as DER, PEM-LF and PEM-CRLF by StreamingCRLFileReader; all callbacks and the result are compared with the whole-document reference decode and Hash(tbs). 1 in 12 cases is negative (version 2..255, critical unknown / delta / IDP extension) and must be rejected. Non-trivial: >=1 entry and (size > 4 KiB or an optional field absent), or a negative case; distinct by (alg, version, entry count, optional fields, aimed boundary, size class).",
 	Assumptions: []string{
 		"encoding/asn1 + crypto hashes are the trusted reference",
